@@ -221,13 +221,14 @@ def write_scn(r, d, names=None, torch=False, kind=None, **kw):
         s = torch_scn(r) if kind == "torch" else comm_scn(r)
         _materialise(d, s.files)
         return s, ",".join("in/" + fn for fn in s.files)
+    n_groups = kw.pop("n_groups", None)
     if kind == "mcast":
         kw.setdefault("ranks", r.choice([3, 4, 4, 5, 6]))
     elif kind == "mlog":
         kw.setdefault("ranks", r.choice([2, 2, 3, 4]))
     s = scenario.gen_scenario(r, **kw)
     if kind == "mcast":
-        collectives.add_chain_allreduce(r, s, n_groups=r.choice([1, 2, 3]))
+        collectives.add_chain_allreduce(r, s, n_groups=n_groups or r.choice([1, 2, 3]))
         s.meta["mcast"] = True
     elif s.ranks >= 2 and r.random() < 0.5:
         collectives.add_chain_allreduce(r, s, n_groups=r.choice([1, 2]))
@@ -465,7 +466,18 @@ def run(ctx):
             # --comm_summarize_seq) ; one in nine: one compiler log per rank ; one in twelve: a torch profile
             kind = "torch" if k % 12 == 5 else "comm" if k % 6 == 1 else "mcast" if k % 6 == 3 else \
                 "mlog" if k % 9 == 4 else None
-            s, inp = write_scn(r, d, kind=kind)
+            # (the flow scenarios below get 3-4 interleaved groups: several of them are still open when the input ends)
+            flow_scn = kind == "mcast" and k % 12 == 3
+            for _try in range(12 if flow_scn else 1):
+                if _try:
+                    shutil.rmtree(d, ignore_errors=True)
+                s, inp = write_scn(r, d, kind=kind, **({"n_groups": r.choice([3, 4])} if flow_scn else {}))
+                g = s.coll["groups"] if flow_scn else []
+                # ... and the last two of them overlap in time: both are still open when the input ends
+                if not flow_scn or (len(g) >= 2 and g[-1]["start_cyc"] < g[-2]["end_cyc"]):
+                    break
+            dist["flow_scenarios_with_open_groups_at_end"] = dist.get("flow_scenarios_with_open_groups_at_end", 0) + int(
+                flow_scn and len(g) >= 2 and g[-1]["start_cyc"] < g[-2]["end_cyc"])
             opts = scn_opts(r, s)
             if kind == "mcast" and k % 12 == 3:
                 # every second multicast scenario draws flow arrows, whatever the random stream says (arrows between
